@@ -26,10 +26,10 @@ LEVEL_NOTE = ("The A* search itself IS modelled (Model/AStar.lean: node = (verte
               "first inconsistent edge of sampled graphs), so optimality of the real search is not a theorem - it stays validated "
               "per scene by the certificates below. The scan-line construction of the orthogonal visibility graph IS modelled (Model/OrthVis.lean: both sweeps with the "
               "limits of findFirstPointAboveAndBelow / firstPointAbove/Below, segment merging, crossings, the breakpoint edge generator with "
-              "bypass edges and direction restrictions, the outside rule) and tied by exact edge-set equality with the dumped "
+              "bypass edges and direction restrictions, the outside rule, setLongRangeVisibilityFlags = orthogVisPropFlags) and tied by exact edge-set equality with the dumped "
               "Router::visOrthogGraph on every scene (Props/C05OrthVis: every model edge is axis-parallel and enters no routing box that "
               "holds no end point, for all scenes). Not modelled: "
-              "pins, checkpoints, clusters, crossing penalties, orthogVisPropFlags; a lost optimum shows up only as a "
+              "pins, checkpoints, clusters, crossing penalties; a lost optimum shows up only as a "
               "cost gap on a generated scene. 'An optimal orthogonal path exists on the Hanan grid' is taken as "
               "the oracle's definition (classical fact, not proved). The estimator theorems are about the model; "
               "its tie to the C++ is sampled (complete over sign classes, which is all bends() depends on). "
@@ -68,7 +68,7 @@ RULE = ("case 0: exhaustive bends() over offsets {-2..2}^2 minus origin x 4 x 4 
         "on every scene with a raw graph dump the Lean model of the graph BUILDER (Model/OrthVis) is run on the scene and its edge set "
         "(exact points, connector-end-point or not) must equal the dumped one, every dumped edge weight must be the edge's length and no "
         "dumped edge may enter a routing box that holds no end point; classes ovis-touch / -overlap / -collinear / -extreme / -inshape / "
-        "-multi (harness/c05_orthvis.h: touching and aligned rectangles, overlapping routing boxes, end points on side lines and on sides, "
+        "-multi; orthogVisPropFlags of every vertex equal the model's (skipped where an end point sits on a box corner: heap-address dependent); a vertex-level check requires that libavoid's graph is joined where two lines meet (harness/c05_orthvis.h: touching and aligned rectangles, overlapping routing boxes, end points on side lines and on sides, "
         "end points on the extreme sweep positions with single-direction flags, end points inside (nested) rectangles, 3-6 connectors with "
         "collinear / coincident ends) carry only scene + graph")
 TRUSTED_BASE = ["Lean 4.33 kernel", "axioms: propext, Classical.choice, Quot.sound",
